@@ -42,7 +42,7 @@ class Lane(LaneBase):
             'every call is_dag() is compared with the model and with a brute-force cycle search, and while every call '
             'so far validated the directed edges must be acyclic; (b) constructor inputs: every binary matrix n<=3 '
             '(quick) / n<=4 (thorough) and dictionaries of small directed graphs incl. cyclic ones, validate on/off, '
-            'through from_adjacency_matrix / from_networkx / from_dict. Non-trivial: the case contains a '
+            'through from_adjacency_matrix / from_networkx (anti-parallel arcs = undirected edge) / GML / from_dict / from_skeleton on both classes, and lagged matrices through from_adjacency_matrices. Non-trivial: the case contains a '
             'CyclicConnectionError or a cyclic graph; distinct by reply-stream hash.')
     TRUSTED = ['networkx.is_directed_acyclic_graph agrees with the definitional model (measured here)']
 
@@ -56,6 +56,17 @@ class Lane(LaneBase):
                 for (i, j), b in zip(cells, bits):
                     m[i][j] = b
                 yield {'ctor': 'matrix', 'rows': m, 'all_routes': n <= 3 or tier == 'thorough'}
+        # lagged matrices: every lag-0 matrix n <= 3 with one or two random lagged matrices; n = 4 sampled (quick) / all
+        for n in range(1, 5):
+            cells = [(i, j) for i in range(n) for j in range(n) if i != j]
+            for bits in itertools.product((0, 1), repeat=len(cells)):
+                if n == 4 and tier == 'quick' and rng.random() > 0.12:
+                    continue
+                m = [[0] * n for _ in range(n)]
+                for (i, j), b in zip(cells, bits):
+                    m[i][j] = b
+                lagged = [[[int(rng.random() < 0.35) for _ in range(n)] for _ in range(n)] for _ in range(rng.randint(0, 2))]
+                yield {'ctor': 'ts_matrices', 'rows': m, 'lagged': lagged}
         # graphs holding a directed cycle entered with validate=False (both classes; time-series: inside one lag slice,
         # since no edge may point backwards in time), plus extra edges; is_dag() must see the cycle, also after copy()
         k = 150 if tier == 'quick' else 2000
@@ -125,27 +136,45 @@ class Lane(LaneBase):
     def run_ctor(self, case):
         import networkx
         import numpy
-        from cai_causal_graph import CausalGraph
+        from cai_causal_graph import CausalGraph, Skeleton, TimeSeriesCausalGraph
         from cai_causal_graph.exceptions import CausalGraphErrors
+        if case['ctor'] == 'ts_matrices':
+            return self.run_ts_matrices(case)
         rows = case['rows']
         n = len(rows)
         names = [chr(97 + i) for i in range(n)]
         directed = [(names[i], names[j]) for i in range(n) for j in range(n) if rows[i][j] and not rows[j][i]]
+        undirected = [(names[i], names[j]) for i in range(n) for j in range(i + 1, n) if rows[i][j] and rows[j][i]]
         cyc = has_cycle(directed)
         oracle = []
         for validate in (True, False):
-            routes = [('from_adjacency_matrix', lambda: CausalGraph.from_adjacency_matrix(numpy.array(rows), names, validate=validate))]
-            if case.get('all_routes', True) and all(rows[i][j] == 0 or rows[j][i] == 0 for i in range(n) for j in range(n)):
+          for C in (CausalGraph, TimeSeriesCausalGraph):
+            cn = C.__name__
+            routes = [(cn + '.from_adjacency_matrix', lambda: C.from_adjacency_matrix(numpy.array(rows), names, validate=validate))]
+            if case.get('all_routes', True):
+                # a networkx DiGraph / directed GML document holding both arcs of a pair is the undirected edge (the
+                # matrix is symmetric there): such input has no directed cycle through that pair and must be accepted
                 dg = networkx.DiGraph()
                 dg.add_nodes_from(names)
                 dg.add_edges_from(directed)
-                routes.append(('from_networkx', lambda: CausalGraph.from_networkx(dg, validate=validate)))
-                routes.append(('from_gml_string', lambda: CausalGraph.from_gml_string('\n'.join(networkx.generate_gml(dg)), validate=validate)))
+                dg.add_edges_from(undirected)
+                dg.add_edges_from((b, a) for a, b in undirected)
+                routes.append((cn + '.from_networkx', lambda: C.from_networkx(dg, validate=validate)))
+                routes.append((cn + '.from_gml_string', lambda: C.from_gml_string('\n'.join(networkx.generate_gml(dg)), validate=validate)))
                 d = {'nodes': {x: {'identifier': x} for x in names},
                      'edges': {}}
                 for s, t in directed:
                     d['edges'].setdefault(s, {})[t] = {'source': {'identifier': s}, 'destination': {'identifier': t}, 'edge_type': '->'}
-                routes.append(('from_dict', lambda: CausalGraph.from_dict(d, validate=validate)))
+                for s, t in undirected:
+                    d['edges'].setdefault(s, {})[t] = {'source': {'identifier': s}, 'destination': {'identifier': t}, 'edge_type': '--'}
+                routes.append((cn + '.from_dict', lambda: C.from_dict(d, validate=validate)))
+                if not directed:
+                    ug = networkx.Graph()
+                    ug.add_nodes_from(names)
+                    ug.add_edges_from(undirected)
+                    routes.append((cn + '.from_networkx(Graph)', lambda: C.from_networkx(ug, validate=validate)))
+                    routes.append((cn + '.from_skeleton', lambda: C.from_skeleton(
+                        Skeleton.from_adjacency_matrix(numpy.array(rows), names), validate=validate)))
             for name, f in routes:
                 try:
                     g = f()
@@ -186,6 +215,45 @@ class Lane(LaneBase):
             oracle.append(f'from_adjacency_matrix(validate=False) raised {type(e).__name__} on {rows}')
         return {'lines': lines, 'impl': impl_out, 'oracle': oracle[:3], 'nontrivial': cyc, 'key': 'm' + repr(rows),
                 'tags': ['matrix-cyclic' if cyc else 'matrix-acyclic']}
+
+    def run_ts_matrices(self, case):
+        """TimeSeriesCausalGraph.from_adjacency_matrices: lagged edges point forward in time, so the directed edges hold
+        a cycle exactly when the directed part of the lag-0 matrix does."""
+        import numpy
+        from cai_causal_graph import TimeSeriesCausalGraph
+        from cai_causal_graph.exceptions import CausalGraphErrors
+        rows, lagged = case['rows'], case['lagged']
+        n = len(rows)
+        names = ['v%d' % i for i in range(n)]
+        directed = [(i, j) for i in range(n) for j in range(n) if i != j and rows[i][j] and not rows[j][i]]
+        cyc = has_cycle(directed)
+        oracle = []
+        for validate in (True, False):
+            for cm in (True, False):
+                mats = {0: numpy.array(rows)}
+                for k, m in enumerate(lagged):
+                    mats[-(k + 1)] = numpy.array(m)
+                name = f'from_adjacency_matrices(validate={validate}, construct_minimal={cm})'
+                try:
+                    g = TimeSeriesCausalGraph.from_adjacency_matrices(mats, variable_names=names, construct_minimal=cm,
+                                                                      validate=validate)
+                    err = None
+                except CausalGraphErrors.CyclicConnectionError:
+                    g, err = None, 'cyclic'
+                except Exception as e:  # noqa: BLE001
+                    g, err = None, type(e).__name__
+                if validate and cyc and err != 'cyclic':
+                    oracle.append(f'{name} accepted a cyclic lag-0 matrix {rows}: {err}')
+                if (not cyc or not validate) and err is not None:
+                    oracle.append(f'{name} refused {"a cyclic" if cyc else "an acyclic"} input {rows} / {lagged}: {err}')
+                if g is not None:
+                    isdag, c2 = dag_truth(g)
+                    if g.is_dag() != isdag:
+                        oracle.append(f'is_dag() = {g.is_dag()} but brute force says {isdag} for {name} {rows}')
+                    if c2 != cyc:
+                        oracle.append(f'{name} built a graph whose cyclicity differs from the input {rows}')
+        return {'lines': [], 'impl': [], 'oracle': oracle[:3], 'nontrivial': cyc, 'key': 't' + repr((rows, lagged)),
+                'tags': ['ts-matrices-cyclic' if cyc else 'ts-matrices-acyclic']}
 
     def signature(self, case, failure):
         return 'C02:' + hashlib.sha1(failure.split(' after ')[0].encode()).hexdigest()[:12]
